@@ -141,7 +141,7 @@ class Formula:
     def __init__(self, transparent: Sequence[str] = ("float", "int"), rename: Optional[Dict[str, str]] = None,
                  allow_calls: Optional[Sequence[str]] = None, strict: bool = False):
         self.transparent = set(transparent)
-        self.rename = dict(rename or {})
+        self.rename = {k.replace(" ", ""): v for k, v in (rename or {}).items()}
         self.allow_calls = set(allow_calls) if allow_calls is not None else None
         self.strict = strict
         self._fn: List[Tuple[str, Tuple, str]] = []  # (fname, args, symbol)
@@ -186,7 +186,7 @@ class Formula:
         return self.parse(ast.parse(text, mode="eval").body)
 
     def sym(self, text: str) -> Rat:
-        text = strip_v(text)
+        text = strip_v(text).replace(" ", "")
         if text in PI_TEXTS:
             return Rat(p_sym("pi"))
         return Rat(p_sym(self.rename.get(text, text)))
@@ -202,7 +202,7 @@ class Formula:
             return Rat(p_const(e.value))
         if isinstance(e, (ast.Name, ast.Attribute, ast.Subscript)):
             t = ast.unparse(e)
-            if strip_v(t) in self.rename or strip_v(t) in PI_TEXTS or isinstance(e, (ast.Name, ast.Attribute)):
+            if isinstance(e, (ast.Name, ast.Attribute)):
                 return self.sym(t)
             # subscript: normalise the index text only
             return self.sym(t)
